@@ -595,7 +595,7 @@ def sib_rules(C, P):
         # index shape: VERSION_INFO[get_sub_element_ver(t) + pos]
         for s in ('<SubelemDefinitionsIter as Iterator>::next', 'ElementType::find_sub_element_internal', 'ElementType::find_attribute_spec'):
             b = P.get(s)
-            ok = version_index_shape(b)
+            ok = any(version_index_shape(x) for x in P.with_closures(b))
             C.check(ok, 'C18-SIB-listing', '%s|version-index-is-base-plus-pos' % s, 'VERSION_INFO is not indexed by <accessor result> + <position> in %s' % s)
         version_base_rule(C, P, 'C18-SIB-listing')
         # attributes
@@ -615,18 +615,24 @@ def sib_rules(C, P):
             C.check('DATATYPES' in statics_of(b) and fld in fields_of(b) and len(fields_of(b) & {'ElementSpec.sub_elements', 'ElementSpec.sub_element_ver', 'ElementSpec.attributes', 'ElementSpec.attributes_ver'}) == 1,
                     'C18-SIB-listing', '%s|reads:%s' % (s, fld), '%s no longer reads exactly DATATYPES[..].%s' % (s, fld))
         # lookup returns only under name equality AND version test
-        b = P.get('ElementType::find_sub_element_internal')
-        somes = [pos for pos, s in b.iter_stmts() if s['k'] == 'assign' and s['rv']['k'] == 'agg' and s['rv'].get('var') == 'Some']
-        eqs = [pos for pos, t in b.iter_calls() if call_matches(t, r'ElementName as .*PartialEq>::eq$')]
-        vparam = [l for l, n in b.names.items() if n == 'version' and 1 <= l <= b.argc]
-        ands = []
-        for pos, s in b.iter_stmts():
-            if s['k'] == 'assign' and s['rv']['k'] == 'bin' and s['rv']['op'] == 'BitAnd' and 'x' not in s['s']:
-                oa = origins(b, s['rv']['a']) + origins(b, s['rv']['b'])
-                if any(o[0] == 'param' and o[1] in vparam for o in oa):
-                    ands.append(pos)
-        ok = bool(somes) and bool(eqs) and bool(ands)
-        direct = [p for p in somes if any(b.pos_dominates(e, p) for e in eqs) and any(b.pos_dominates(a, p) for a in ands)]
+        b0 = P.get('ElementType::find_sub_element_internal')
+        ok = False
+        direct = []
+        # the loop body may live in a closure (`iter().enumerate().find_map(|..| ..)`): the version is then a captured variable
+        for b in P.with_closures(b0):
+            somes = [pos for pos, s in b.iter_stmts() if s['k'] == 'assign' and s['rv']['k'] == 'agg' and s['rv'].get('var') == 'Some']
+            eqs = [pos for pos, t in b.iter_calls() if call_matches(t, r'ElementName as .*PartialEq>::eq$')]
+            vparam = [l for l, n in b.names.items() if n == 'version' and 1 <= l <= b.argc]
+            ands = []
+            for pos, s in b.iter_stmts():
+                if s['k'] == 'assign' and s['rv']['k'] == 'bin' and s['rv']['op'] == 'BitAnd' and 'x' not in s['s']:
+                    oa = origins(b, s['rv']['a']) + origins(b, s['rv']['b'])
+                    from flow import upvar_names
+                    if any(o[0] == 'param' and o[1] in vparam for o in oa) or 'version' in (upvar_names(b, s['rv']['a']) | upvar_names(b, s['rv']['b'])):
+                        ands.append(pos)
+            if somes and eqs and ands:
+                ok = True
+                direct += [p for p in somes if any(b.pos_dominates(e, p) for e in eqs) and any(b.pos_dominates(a, p) for a in ands)]
         C.check(ok and len(direct) >= 1, 'C18-SIB-listing', 'find_sub_element_internal|match-needs-name-and-version', 'the direct match in find_sub_element_internal is no longer guarded by both the name comparison and the version-mask test')
         # dest
         st1, cl1, fl1 = closure_info(['ElementType::reference_dest_value'])
